@@ -92,6 +92,64 @@ def gen_transcendental(out):
     out.append('/-- every loop header of the module, in source order -/')
     out.append('def loopHeaders : List String := ' + lean_str_list(loops))
 
+def macro_body(src, name):
+    i = src.index('macro_rules! %s {' % name)
+    j = src.index('{', i)
+    depth = 0
+    for k in range(j, len(src)):
+        if src[k] == '{': depth += 1
+        elif src[k] == '}':
+            depth -= 1
+            if depth == 0:
+                return src[j:k + 1]
+    raise SystemExit('translator: unbalanced macro ' + name)
+
+def gen_convert(out):
+    """type-level admissibility of `From` / `LossyFrom` between fixed-point types: every impl header of `convert!` / `convert_lossy!`
+    with its where-clauses interpreted, instantiated for every invocation row"""
+    c = read('convert.rs')
+    def impls(body, trait_names):
+        res = []
+        for m in re.finditer(r'impl<[^>]*>\s+(From|LossyFrom)<\$(Src[UI])<FracSrc>>\s+for\s+\$(Dst[UI])<FracDst>\s+where\s+(.*?)\{', body, re.S):
+            tr, sp, dp, wh = m.group(1), m.group(2), m.group(3), re.sub(r'\s+', '', m.group(4))
+            le_frac = False; bound = None
+            for cl in [x for x in re.split(r',(?![^<]*>)', wh) if x]:
+                if cl == 'FracSrc:IsLessOrEqual<FracDst,Output=True>':
+                    le_frac = True
+                elif cl in ('$SrcBits:Sub<FracSrc>', '$DstBits:Sub<FracDst>', '$DstBitsM1:Sub<FracDst>'):
+                    pass
+                elif cl == 'Diff<$SrcBits,FracSrc>:IsLessOrEqual<Diff<$DstBits,FracDst>,Output=True>':
+                    bound = 'DstBits'
+                elif cl == 'Diff<$SrcBits,FracSrc>:IsLessOrEqual<Diff<$DstBitsM1,FracDst>,Output=True>':
+                    bound = 'DstBitsM1'
+                else:
+                    raise SystemExit('translator: unknown where-clause in convert.rs: ' + cl)
+            need(bound is not None, 'integer-bit clause in ' + m.group(0)[:60])
+            res.append((tr, sp == 'SrcI', dp == 'DstI', le_frac, bound))
+        return res
+    conv = impls(macro_body(c, 'convert'), None)
+    lossy_body = macro_body(c, 'convert_lossy')
+    lossy = impls(lossy_body, None)
+    need(len(conv) == 3 and len(lossy) == 3, 'three impls in convert! and in convert_lossy!')
+    rows = re.findall(r'^convert! \{ \(Fixed(U\d+), Fixed(I\d+), U(\d+), LeEqU\d+\) -> \(Fixed(U\d+), Fixed(I\d+), U(\d+), U(\d+), LeEqU\d+\) \}', c, re.M)
+    need(len(rows) == 10, 'ten convert! rows')
+    lrows_src = re.findall(r'^convert_lossy! \{ Fixed(U\d+), Fixed(I\d+), U(\d+), LeEqU\d+ \}', c, re.M)
+    lrows_dst = re.findall(r'-> \(Fixed(U\d+), Fixed(I\d+), U(\d+), U(\d+), LeEqU\d+\)', lossy_body)
+    need(len(lrows_src) == 5 and len(lrows_dst) == 5, 'five convert_lossy! sources and destinations')
+    ents = []
+    for (_, _, sn, _, _, dn, dm1) in rows:
+        for tr, ss, ds, lef, b in conv:
+            ents.append((tr, ss, int(sn), ds, int(dn), lef, int(dn) if b == 'DstBits' else int(dm1)))
+    for (_, _, sn) in lrows_src:
+        for (_, _, dn, dm1) in lrows_dst:
+            for tr, ss, ds, lef, b in lossy:
+                ents.append((tr, ss, int(sn), ds, int(dn), lef, int(dn) if b == 'DstBits' else int(dm1)))
+    out.append('/-! ### `convert.rs`: every `From` / `LossyFrom` impl between fixed-point types, as (trait, srcSigned, srcBits, dstSigned, dstBits, requires FracSrc ≤ FracDst, constant C in `srcBits − FracSrc ≤ C − FracDst`) -/')
+    out.append('def fromImpls : List (String × Bool × Nat × Bool × Nat × Bool × Nat) := [')
+    b = lambda x: 'true' if x else 'false'
+    out.append(',\n'.join(f'  ("{tr}", {b(ss)}, {sn}, {b(ds)}, {dn}, {b(lef)}, {ib})' for tr, ss, sn, ds, dn, lef, ib in ents))
+    out.append(']')
+
 def main():
     out = ['/- GENERATED by tools/gen_from_source.py from /repo/src — do not edit; rewritten on every check run. -/',
            'namespace Sfx', 'namespace Generated', '']
